@@ -57,7 +57,9 @@ def violating_frames(v, deflate):
             op = wire.CONT
         payload = s if op != wire.CLOSE else struct.pack("!H", 1000) + s
         key = [b"\x01\x02\x03\x04", b"\x00\x00\x00\x00", b"\xff\xfe\xfd\xfc"][b % 3]
-        return B(op, payload, mask=key)
+        # a masked data frame may also be a NON-final fragment (the suffix then completes it)
+        fin = 0 if (v.get("wide") and op < 8) else 1
+        return B(op, payload, fin=fin, mask=key)
     if cls == "nothing_to_continue":
         return B(wire.CONT, s, fin=a & 1)
     if cls == "expected_continuation":
@@ -185,7 +187,8 @@ class C04(Prop):
             "class": st.sampled_from(CLASSES),
             "a": st.integers(0, 20), "b": st.integers(0, 20), "wide": st.booleans(),
         })
-        suffix = st.lists(st.sampled_from(["binary", "text", "ping", "close"]), max_size=3)
+        # "cont": a final continuation first - it completes a fragment that was wrongly accepted
+        suffix = st.lists(st.sampled_from(["cont", "binary", "text", "ping", "close"]), max_size=3)
         return st.fixed_dictionaries({
             "prefix": st.lists(gen.message(big=False), max_size=5),
             "open": st.one_of(st.none(), st.sampled_from(["text", "binary"])),
@@ -215,7 +218,9 @@ class C04(Prop):
         data += violating_frames(v, deflate)
         self._viol_end = len(data)
         for k in case["suffix"]:
-            if k == "binary":
+            if k == "cont":
+                data += wire.build_frame(wire.CONT, SUFFIX_SENTINEL)
+            elif k == "binary":
                 data += wire.build_frame(wire.BINARY, SUFFIX_SENTINEL)
             elif k == "text":
                 data += wire.build_frame(wire.TEXT, SUFFIX_SENTINEL)
@@ -375,7 +380,9 @@ class C04(Prop):
             head += key
             body = wire._xor(key, body)
         prefix = wire.build_frame(wire.TEXT, b"ab", fin=0) if inside else b""
-        suffix = wire.build_frame(wire.BINARY, SUFFIX_SENTINEL)
+        # a final continuation comes first: if the header under test is a (legal or wrongly accepted)
+        # non-final fragment, the message is completed and would be delivered
+        suffix = wire.build_frame(wire.CONT, b"-fin") + wire.build_frame(wire.BINARY, SUFFIX_SENTINEL)
         data = prefix + head + body + (b"" if truncated else suffix)
         model = refmodel.interpret(data, {"server_nct": False} if deflate else None)
         reply = deflate_reply() if deflate else None
